@@ -44,6 +44,13 @@ def gen_kw(rng, voc, p_tag):
             kw.setdefault('md', [['m' + str(rng.randrange(3)), rng.choice([2, 'w'])]])
     return kw
 
+# size amplification: a share of the generated sequences is BIG - lists of 10-13 elements (two-digit positions, also counted from
+# the end), mappings of 8-10 keys (among them keys that sort differently as text and as numbers), one or two stages more, a level
+# deeper; small inputs stay the majority (seeded round 8: changes that show only beyond a size)
+BIG = False
+P_BIG = 0.08
+BIG_KEYS = ['k%d' % i for i in range(12)] + ['10', '9', '2', 'z10', 'z9']
+
 def gen_scalar(rng, voc):
     v = rng.choice(SCALARS)
     if isinstance(v, float) and not voc.floats:
@@ -63,7 +70,11 @@ def gen_value(rng, voc, depth, p_tag, in_list=False):
         return S(gen_scalar(rng, voc), kw=kw)
     if r < 0.70:
         n = rng.choice([0, 1, 2, 2, 3])
-        items = [gen_value(rng, voc, depth - 1, p_tag, in_list=True) for _ in range(n)]
+        if BIG and rng.random() < 0.5:
+            n = rng.choice([10, 11, 12, 13])
+            items = [gen_value(rng, voc, min(depth - 1, 1) if rng.random() < 0.15 else 0, p_tag, in_list=True) for _ in range(n)]
+        else:
+            items = [gen_value(rng, voc, depth - 1, p_tag, in_list=True) for _ in range(n)]
         if voc.ops and rng.random() < 0.12:
             return Q(items, tag=rng.choice(['append', 'extend']))
         return Q(items, kw=kw)
@@ -76,6 +87,10 @@ def gen_items(rng, voc, depth, p_tag, nmax=3):
     n = rng.choice([0, 1, 2, 2, 3][:nmax + 2])
     keys = []
     pool = STR_KEYS + (INT_KEYS if voc.intkeys and rng.random() < 0.15 else [])
+    if BIG and rng.random() < 0.3:
+        n = rng.choice([8, 9, 10])
+        pool = pool + BIG_KEYS + BIG_KEYS
+        depth = min(depth, 1)
     if rng.random() < P_FLOATKEY:
         pool = pool + FLOAT_KEYS + FLOAT_KEYS
     while len(keys) < n:
@@ -166,14 +181,23 @@ def gen_override(rng, voc, base, depth=3, p_tag=0.3):
     return M(build(items), kw=gen_kw(rng, voc, p_tag * 0.2))
 
 def gen_sequence(rng, voc, nmax=4, depth=3, p_tag=0.25):
+    global BIG
+    big = rng.random() < P_BIG
     n = rng.choice([1, 2, 2, 2, 3, 3, 4][:max(1, nmax + 3)])
     n = min(n, nmax)
-    docs = [gen_doc(rng, voc, depth, p_tag)]
-    for _ in range(n - 1):
-        if rng.random() < 0.7:
-            docs.append(gen_override(rng, voc, rng.choice(docs), depth, p_tag))
-        else:
-            docs.append(gen_doc(rng, voc, depth, p_tag))
+    if big:
+        n = max(n, min(nmax, rng.choice([3, 4, 5])))
+        depth = depth + 1
+    BIG = big
+    try:
+        docs = [gen_doc(rng, voc, depth, p_tag)]
+        for _ in range(n - 1):
+            if rng.random() < 0.7:
+                docs.append(gen_override(rng, voc, rng.choice(docs), depth, p_tag))
+            else:
+                docs.append(gen_doc(rng, voc, depth, p_tag))
+    finally:
+        BIG = False
     return docs
 
 
